@@ -899,7 +899,7 @@ impl Check for C11Check {
             "codes 749..=766 are unknown to OsCode::from_u16 and cannot be delivered by the OS layer; they are counted and skipped".into(),
             "the Miri lane for the transmute is a separate crate (/verif/harness-miri) and not part of this in-process check".into(),
             "part 5 judges only the absence of OS events for the reserved codes; what else a scenario types (backspaces, the other keys) belongs to the properties of the respective feature. `(arbitrary-code n)` writes the number the user asked for and is not part of the scenarios; cmd-output-keys (feature `cmd`) and live reload are not reachable in this build / stepper. The control key (f24) is only counted: in the hidden-suppressed cancellation families and in one-shot it legitimately never reaches the OS".into(),
-            "part 5, unchanged tree: a zippychord output character mapped to a nop key (output-character-mappings) is typed with the unfiltered writer and reaches the OS; recorded as known finding C11:nop-path:reserved-code-reached-os:zippy-output-mapping (findings/C11-zippy-output-mapping-types-nop-keys.md); every other family is live".into(),
+            "part 5: a zippychord output character mapped to a nop key (output-character-mappings) may be refused by the parser (it was typed with the unfiltered writer before the repair recorded in known_findings.json); the f24 control of that family must be accepted and reach the OS".into(),
             "part 6: with transparent-key-resolution to-base-layer AND delegate-to-first-layer yes the guide does not decide whether a transparent key of a held layer resolves to the switched layer below it or to the first layer, so the held-transparent-over-switched activation is skipped for that option pair; a transparent upper key is judged only above a first layer that is itself the identity at that position (what lies below a transparent key otherwise is C04's subject); key codes: letters, a modifier, a function key and codes that have no name (via deflocalkeys-linux), not the mouse pseudo keys or nop keys (their identity is part 1)".into(),
         ]
     }
@@ -932,8 +932,8 @@ impl Check for C11Check {
         let q = _ctx.tier == crate::core::Tier::Quick;
         v.extend([
             ("noppath_scenarios", 134),
-            ("noppath_runs", if q { 9_000 } else { 260_000 }),
-            ("noppath_random_history_runs", if q { 8_000 } else { 260_000 }),
+            ("noppath_runs", if q { 8_800 } else { 255_000 }),
+            ("noppath_random_history_runs", if q { 7_800 } else { 255_000 }),
             ("noppath_control_runs", 134),
             ("noppath_control_key_reached_os", 95),
             ("noppath_os_events_inspected", 25_000),
